@@ -158,6 +158,14 @@ def check_plan(spec, m, plan_desc, res, ctx, methods=("first_order",), n_per=N):
         # instrument date, so the run keeps a single information set)
         if NP > 3:
             db_in["ant_" + spec.shk(spec.n - 1)][START + 3] = 0.3 * amp
+        # a second bystander in unanticipated mode: an ordinary unanticipated shock, left in the input as data, at a
+        # later date at which the plan endogenizes nothing (every information set is then still exactly identified;
+        # under an anticipated plan such a surprise would change the information set of the instruments - not enumerated)
+        if mode == "unanticipated":
+            free = [d for d in range(2, min(NP, 4) + 1) if d not in {ins[2] for ins in instruments}]
+            if free:
+                db_in[spec.shk(0)][START + free[0] - 1] = -0.25 * amp
+                res.count("plans_with_unanticipated_bystander")
         truth = None
         if source == "inversion":
             db_true = db_in.copy()
@@ -172,6 +180,10 @@ def check_plan(spec, m, plan_desc, res, ctx, methods=("first_order",), n_per=N):
                 v = amp * (0.5 - 0.8 * k)
                 old = val(db_in, spec.var(tg[1]), tg[2])
                 db_in[spec.var(tg[1])][START + tg[2] - 1] = old * np.exp(v) if spec.log else old + v
+        # the cells of the endogenized shocks hold stale non-zero values in the input (an earlier judgement that is
+        # now re-tuned): what comes back is the whole shock, whatever the input cell held
+        for l, ins in enumerate(instruments):
+            db_in[shock_name(spec, ins)][START + ins[2] - 1] = amp * (0.15 + 0.1 * l)
         plan = ir.SimulationPlan(m, span)
         for tg, ins in zip(targets, instruments):
             p_t, p_i = START + tg[2] - 1, START + ins[2] - 1
@@ -367,7 +379,8 @@ def run(ctx, total, info):
                       "stacked_time_successes": (c.get("planned_simulations_stacked_time", 0), 100),
                       "variant_runs": (c.get("variant_runs", 0), 700),
                       "plans_ending_on_the_last_period": (c.get("plans_ending_on_the_last_period", 0), 1500),
-                      "planned_simulations_split_frames": (c.get("planned_simulations_split_frames", 0), 3000)}
+                      "planned_simulations_split_frames": (c.get("planned_simulations_split_frames", 0), 3000),
+                      "plans_with_unanticipated_bystander": (c.get("plans_with_unanticipated_bystander", 0), 400)}
 
 
 def replay(case):
